@@ -532,8 +532,6 @@ return rv;""",
         self.py_class_decl.append(proto + ";")
 
         output.append("")
-        if node.cpp_if:
-            output.append("#" + node.cpp_if)
         output.append("// converter which may be used with PyBuild.")
         output.append(proto)
         output.append("{+")
